@@ -1,6 +1,7 @@
 package rules
 
 import (
+	"fmt"
 	"go/token"
 	"go/types"
 	"sort"
@@ -284,5 +285,86 @@ func decoderOptions(c *an.Ctx, rule string, scope map[*ssa.Function][]an.CallEdg
 	}
 	if n == 0 {
 		c.OK(rule, "format decoders", token.NoPos, "no json/yaml/toml decoder object is built in the load scope (%d functions): nothing can be configured", len(fns))
+	}
+}
+
+// hookKindBlind implements the decode-hook clause of C16.3: a decode hook of the module may ask whether its source
+// is a string, nothing more — the numeric kinds differ between the decoders (yaml.v2 int, go-toml int64,
+// encoding/json float64), so a hook that treats some of them and not others makes one document mean different
+// things in different formats.
+func hookKindBlind(c *an.Ctx, rule string) {
+	p := c.P
+	isHook := func(sig *types.Signature) bool {
+		if sig.Params().Len() != 3 || sig.Results().Len() != 2 {
+			return false
+		}
+		if _, ok := sig.Params().At(2).Type().Underlying().(*types.Interface); !ok {
+			return false
+		}
+		for i := 0; i < 2; i++ {
+			t := sig.Params().At(i).Type().String()
+			if t != "reflect.Type" && t != "reflect.Kind" {
+				return false
+			}
+		}
+		return an.IsErrorType(sig.Results().At(1).Type())
+	}
+	const kindString = 24 // reflect.String
+	n := 0
+	for _, f := range p.Funcs {
+		if !isHook(f.Signature) || f.Blocks == nil {
+			continue
+		}
+		n++
+		var bad []string
+		// kinds of the source (parameter 0, or of reflect.ValueOf/TypeOf(data)) compared with constants
+		isSrcKind := func(v ssa.Value) bool {
+			call, ok := v.(*ssa.Call)
+			if !ok {
+				return false
+			}
+			recv := ssa.Value(nil)
+			if call.Call.IsInvoke() && call.Call.Method.Name() == "Kind" {
+				recv = call.Call.Value
+			} else if sc := call.Call.StaticCallee(); sc != nil && sc.Name() == "Kind" && len(call.Call.Args) > 0 {
+				recv = call.Call.Args[0]
+			}
+			if recv == nil {
+				return false
+			}
+			for _, src := range an.Sources(recv) {
+				if src == ssa.Value(f.Params[0]) {
+					return true
+				}
+				if rc, ok := src.(*ssa.Call); ok && (an.ShortCallee(&rc.Call) == "reflect.ValueOf" || an.ShortCallee(&rc.Call) == "reflect.TypeOf") {
+					return true
+				}
+			}
+			return false
+		}
+		if sig := f.Signature.Params().At(0).Type().String(); sig == "reflect.Kind" {
+			isSrcKind = func(v ssa.Value) bool { return v == ssa.Value(f.Params[0]) }
+		}
+		an.EachInstr(f, func(in ssa.Instruction) {
+			bo, ok := in.(*ssa.BinOp)
+			if !ok || (bo.Op != token.EQL && bo.Op != token.NEQ) {
+				return
+			}
+			x, y := bo.X, bo.Y
+			if !isSrcKind(x) {
+				x, y = y, x
+			}
+			if !isSrcKind(x) {
+				return
+			}
+			if k, isC := an.ConstInt(y); isC && k != kindString {
+				bad = append(bad, fmt.Sprintf("reflect.Kind(%d) at %s", k, p.Pos(bo.Pos())))
+			}
+		})
+		bad = dedup(bad)
+		c.Check(len(bad) == 0, rule, an.Short(f)+":source-kinds", f.Pos(), "the decode hook asks at most whether its source is a string", "the decode hook "+an.Short(f)+" distinguishes source kinds other than string ("+strings.Join(bad, ", ")+"): integers arrive as int from YAML, int64 from TOML and float64 from JSON, so the same document is converted differently depending on its format")
+	}
+	if n == 0 {
+		c.OK(rule, "module:decode-hooks", token.NoPos, "no decode hook is defined in the module")
 	}
 }
